@@ -527,6 +527,18 @@ def main():
             check_methods(ck, spec, "discrete", masked=True)
     with ck.section("spaces"):
         check_spaces(ck)
+    with ck.section("clip_observation.mixed_bounds"):
+        # a Box with finite AND infinite bounds (CartPole's): every finite bound is still enforced -- the FP32 image obligation of C02 on the real wrapper,
+        # plus `in-range observations pass through unchanged`
+        from props import C02
+        from lerax.env.classic_control import CartPole
+        envc = CartPole()
+        wc = W.ClipObservation(envc)
+        trc, itc, Sc, outc, prec = C02.wrapper_image(ck, "ClipObservation@cartpole(mixed finite/infinite bounds)", wc, envc.observation_space, "fp32", any_input=True)
+        ob_in = np.asarray(Sc["ob"], dtype=object).reshape(-1)
+        inside = C02.member_terms(itc.o, Sc["ob"], itc.lift(np.asarray(envc.observation_space.low)), itc.lift(np.asarray(envc.observation_space.high)))
+        same = [z3.fpEQ(a, b) if z3.is_fp(a) else a == b for a, b in zip(np.asarray(outc["obs"], dtype=object).reshape(-1), ob_in)]
+        ck.prove("wrap.ClipObservation@cartpole.in_range_unchanged", prec + list(inside), conj(same), replay=lambda res: (True, {"note": "clip changes an in-range observation"}))
     with ck.section("rescale_grid"):
         check_rescale_grid(ck)
     with ck.section("unwrapped"):
